@@ -5,7 +5,8 @@ Cases
         keyword) or defaulted block size; valid and invalid (n, small_n) combinations.
   rot : structured_rotation / inverse_structured_rotation on an array of any shape, one key
         (+ a second key for the "different keys" clause on inputs with >= 64 non-zero entries).
-  tree: the _pytree versions on dict/list trees of 1..3 leaves.
+  tree: the _pytree versions on container trees drawn from dict / list / tuple / namedtuple / None and empty
+        containers, nested (tuple at the root, dict of (w, b) tuples, list of namedtuple layers, a bare leaf, ...).
 
 The oracle states the property directly on the real outputs (classical butterfly FWHT in exact
 integer/rational arithmetic, norms, round trips); the model comparison asks the compiled Lean model.
@@ -99,11 +100,179 @@ def shape_size(shape):
   return s
 
 
+# ------------------------------------------------------------------------------------------------
+# parameter-tree specs (JSON):  ["leaf", shape, xspec] | ["dict", [[key, node], ...]] | ["list", [node, ...]]
+#   | ["tuple", [node, ...]] | ["nt", typename, [node, ...]] (a namedtuple) | ["none"] (None: a node without leaves)
+
+import collections
+
+Dense = collections.namedtuple('Dense', ['w', 'b'])
+Conv = collections.namedtuple('Conv', ['kernel', 'bias', 'scale'])
+Wrap = collections.namedtuple('Wrap', ['inner'])
+NT_TYPES = {'Dense': Dense, 'Conv': Conv, 'Wrap': Wrap}
+LEAF_SHAPES = [[], [1], [2], [3], [5], [2, 3], [4], [3, 3], [8], [2, 2], [1, 7]]
+
+
+def spec_build(spec, mk):
+  """builds the Python container tree; `mk(leaf_spec)` makes the leaf object"""
+  t = spec[0]
+  if t == 'leaf':
+    return mk(spec)
+  if t == 'none':
+    return None
+  if t == 'dict':
+    return {k: spec_build(v, mk) for k, v in spec[1]}
+  if t == 'list':
+    return [spec_build(v, mk) for v in spec[1]]
+  if t == 'tuple':
+    return tuple(spec_build(v, mk) for v in spec[1])
+  if t == 'nt':
+    return NT_TYPES[spec[1]](*[spec_build(v, mk) for v in spec[2]])
+  raise ValueError(f'bad tree spec node {t}')
+
+
+def spec_children(spec):
+  t = spec[0]
+  if t == 'dict':
+    return [v for _, v in spec[1]]
+  if t in ('list', 'tuple'):
+    return list(spec[1])
+  if t == 'nt':
+    return list(spec[2])
+  return []
+
+
+def spec_with_children(spec, kids):
+  t = spec[0]
+  if t == 'dict':
+    return ['dict', [[k, c] for (k, _), c in zip(spec[1], kids)]]
+  if t in ('list', 'tuple'):
+    return [t, list(kids)]
+  if t == 'nt':
+    return ['nt', spec[1], list(kids)]
+  return spec
+
+
+def spec_all_leaves(spec):
+  if spec[0] == 'leaf':
+    return [spec]
+  return [l for c in spec_children(spec) for l in spec_all_leaves(c)]
+
+
+def spec_kinds(spec, depth=0, out=None):
+  """container kinds with their depth (for the input-distribution histogram)"""
+  out = set() if out is None else out
+  if spec[0] != 'leaf':
+    out.add(spec[0] + ('@root' if depth == 0 else ''))
+    if not spec_children(spec) and spec[0] != 'none':
+      out.add('empty-' + spec[0])
+  elif depth == 0:
+    out.add('bare-leaf')
+  for c in spec_children(spec):
+    spec_kinds(c, depth + 1, out)
+  return out
+
+
+def spec_shrinks(spec):
+  """smaller / simpler trees: a child instead of the node, a child dropped, tuple/namedtuple/dict -> list,
+  smaller leaves; applied at every position"""
+  t = spec[0]
+  kids = spec_children(spec)
+  for c in kids:
+    yield c
+  if t in ('list', 'tuple', 'dict') and len(kids) > 0:
+    for i in range(len(kids)):
+      if t == 'dict':
+        yield ['dict', spec[1][:i] + spec[1][i + 1:]]
+      else:
+        yield [t, kids[:i] + kids[i + 1:]]
+  if t in ('tuple', 'nt', 'dict'):
+    yield ['list', kids]
+  if t == 'nt':
+    yield ['tuple', kids]
+  if t == 'leaf':
+    shape = spec[1]
+    for sh in ([], [1], [2]):
+      if shape_size(sh) < shape_size(shape) or (shape_size(sh) == shape_size(shape) and len(sh) < len(shape)):
+        x = spec[2]
+        x2 = {**x, 'n': shape_size(sh)} if isinstance(x, dict) else list(x)[:shape_size(sh)]
+        yield ['leaf', sh, x2]
+  for i, c in enumerate(kids):
+    for c2 in spec_shrinks(c):
+      yield spec_with_children(spec, kids[:i] + [c2] + kids[i + 1:])
+
+
+def legacy_tree_spec(case):
+  """cases written before the spec format: struct in {list, dict, nested} + shapes + xs"""
+  leaves = [['leaf', list(sh), x] for sh, x in zip(case['shapes'], case['xs'])]
+  st = case['struct']
+  if st == 'list':
+    return ['list', leaves]
+  if st == 'dict':
+    return ['dict', [[f'p{i}', l] for i, l in enumerate(leaves)]]
+  if len(leaves) == 1:
+    return ['dict', [['a', ['dict', [['w', leaves[0]]]]]]]
+  if len(leaves) == 2:
+    return ['dict', [['a', ['dict', [['b', leaves[0]], ['w', leaves[1]]]]]]]
+  return ['dict', [['a', ['dict', [['b', leaves[0]], ['w', leaves[1]]]]], ['z', ['list', leaves[2:]]]]]
+
+
+def gen_leaf(rng, shape=None):
+  shape = list(rng.choice(LEAF_SHAPES)) if shape is None else list(shape)
+  return ['leaf', shape, {'seed': rng.randrange(2 ** 31), 'n': shape_size(shape), 'mag': 8,
+                          'kind': rng.choice(['uniform', 'uniform', 'nonzero'])}]
+
+
+def gen_spec(rng, depth, budget):
+  """random container tree over dict / list / tuple / namedtuple / None / empty containers.
+  `budget` = one-element list with the remaining number of leaves."""
+  if depth == 0 or budget[0] <= 0 or rng.random() < 0.25:
+    if budget[0] <= 0:
+      return rng.choice([['none'], ['dict', []], ['list', []], ['tuple', []]])
+    budget[0] -= 1
+    return gen_leaf(rng)
+  t = rng.choice(['dict', 'list', 'tuple', 'tuple', 'nt', 'nt', 'dict', 'list', 'tuple', 'none-or-empty'])
+  if t == 'none-or-empty':
+    return rng.choice([['none'], ['dict', []], ['list', []], ['tuple', []]])
+  if t == 'nt':
+    name = rng.choice(['Dense', 'Dense', 'Conv', 'Wrap'])
+    return ['nt', name, [gen_spec(rng, depth - 1, budget) for _ in NT_TYPES[name]._fields]]
+  n = rng.choice([1, 2, 2, 3])
+  kids = [gen_spec(rng, depth - 1, budget) for _ in range(n)]
+  if t == 'dict':
+    keys = rng.sample(['w', 'b', 'dense0', 'dense1', 'layer', 'z', 'a', 'kernel'], n)
+    return ['dict', [[k, c] for k, c in zip(keys, kids)]]
+  return [t, kids]
+
+
+def fixed_tree_specs(rng):
+  """the container shapes real parameter trees have (haiku dicts, stax tuples, namedtuple layer records)"""
+  L = lambda sh=None: gen_leaf(rng, sh)
+  return [
+      ['dict', [['p0', L([2, 3])], ['p1', L([2, 2])]]],                                   # flat dict
+      ['dict', [['a', ['dict', [['b', L([])], ['w', L([5])]]]], ['z', ['list', [L([3, 3])]]]]],
+      ['tuple', [L([3, 4]), L([4])]],                                                      # tuple at the root
+      ['dict', [['dense0', ['tuple', [L([3, 2]), L([2])]]], ['dense1', ['tuple', [L([2, 2]), L([2])]]]]],
+      ['list', [['nt', 'Dense', [L([2, 2]), L([2])]], ['nt', 'Dense', [L([2, 1]), L([1])]]]],   # namedtuple layers
+      L([5]),                                                                              # a single bare leaf
+      L([]),                                                                               # a bare scalar
+      ['dict', [['a', ['dict', []]], ['b', ['list', []]], ['c', ['tuple', []]], ['n', ['none']], ['w', L([3])]]],
+      ['dict', []], ['tuple', []], ['list', []], ['none'],                                 # trees without leaves
+      ['nt', 'Dense', [L([2, 3]), L([])]],                                                 # namedtuple at the root
+      ['tuple', [['tuple', [L([2]), L([3])]], ['tuple', [L([])]]]],                        # tuple of tuples
+      ['dict', [['enc', ['list', [['tuple', [L([2, 2]), L([2])]], ['nt', 'Dense', [L([2, 2]), L([2])]]]]],
+                ['dec', ['dict', [['k', ['tuple', [L([4])]]]]]]]],
+      ['nt', 'Wrap', [['nt', 'Conv', [L([2, 2]), L([2]), L([])]]]],
+      ['list', [['tuple', []], ['tuple', [L([1])]], ['none'], L([2])]],
+      ['tuple', [L([3])]],                                                                 # 1-tuple
+  ]
+
+
 class C18(core.Property):
   ID = 'C18'
   RULE = ('cases: wht (length 2^k, k=0..14, block size 2^1..2^11 explicit positional/keyword or defaulted, '
           'integer / dyadic / unit / float vectors, plus invalid lengths and block sizes), rot (array shapes of '
-          'size >= 1 incl. 0-d, non-powers of two, multi-dimensional; size-0 rejection), tree (1..3 leaves, nested); '
+          'size >= 1 incl. 0-d, non-powers of two, multi-dimensional; size-0 rejection), tree (containers dict/list/tuple/namedtuple/None/empty, nested to depth 3, 0..6 leaves incl. 0-d, bare leaf); '
           'non-trivial = transform of a non-constant vector of length >= 4 whose result differs from the input, '
           'from the bit-reversed-order transform and from the input scaled; rotations: size >= 2 and x != 0; '
           'distinct by case digest')
@@ -132,11 +301,8 @@ class C18(core.Property):
     # 0-d / tiny rotations and trees first: cheap, and they hit the scalar-parameter path
     for shape in ([], [1], [5], [3, 4], [2, 3, 5], [129], [64], [1, 1], [2], [7, 1, 3]):
       yield self._rot_case(rng, shape)
-    yield {'kind': 'tree', 'struct': 'dict', 'shapes': [[2, 3], [2, 2]], 'key': rng.randrange(2 ** 31),
-           'xs': [{'seed': rng.randrange(2 ** 31), 'n': 6}, {'seed': rng.randrange(2 ** 31), 'n': 4}]}
-    yield {'kind': 'tree', 'struct': 'nested', 'shapes': [[], [5], [3, 3]], 'key': rng.randrange(2 ** 31),
-           'xs': [{'seed': rng.randrange(2 ** 31), 'n': 1, 'kind': 'nonzero'},
-                  {'seed': rng.randrange(2 ** 31), 'n': 5}, {'seed': rng.randrange(2 ** 31), 'n': 9}]}
+    for spec in fixed_tree_specs(rng):
+      yield {'kind': 'tree', 'spec': spec, 'key': rng.randrange(2 ** 31)}
     # the (length, block size) grid of the property text: 2^0..2^14 x (default, 2^1..2^8)
     ks = list(range(0, 15))
     ss = [None] + list(range(1, 9))
@@ -159,18 +325,15 @@ class C18(core.Property):
         k = rng.randrange(0, 11)
         s = rng.choice([None, 1, 2, 3, 4, 5, 6, 7, 8, 9, 10, 11])
         yield self._wht_case(rng, k, s, i)
-      elif t < 8:
+      elif t < 7:
         nd = rng.choice([0, 1, 1, 2, 2, 3])
         shape = [rng.choice([1, 2, 3, 4, 5, 7, 8, 9, 16, 17, 33]) for _ in range(nd)]
         if shape_size(shape) > 4096:
           shape = shape[:1]
         yield self._rot_case(rng, shape)
       elif t < 9:
-        nl = rng.randrange(1, 4)
-        shapes = [[rng.choice([1, 2, 3, 5, 8]) for _ in range(rng.randrange(0, 3))] for _ in range(nl)]
-        yield {'kind': 'tree', 'struct': rng.choice(['dict', 'nested', 'list']), 'shapes': shapes,
-               'key': rng.randrange(2 ** 31),
-               'xs': [{'seed': rng.randrange(2 ** 31), 'n': shape_size(sh)} for sh in shapes]}
+        yield {'kind': 'tree', 'spec': gen_spec(rng, rng.choice([1, 2, 2, 3]), [rng.choice([1, 2, 3, 4, 5])]),
+               'key': rng.randrange(2 ** 31)}
       else:
         yield {'kind': 'rot', 'shape': rng.choice([[0], [2, 0]]), 'key': rng.randrange(2 ** 31), 'dtype': 'float32',
                'x': {'seed': 0, 'n': 0}}
@@ -230,16 +393,14 @@ class C18(core.Property):
       if case.get('dtype') != 'float32':
         yield {**case, 'dtype': 'float32'}
     elif kind == 'tree':
-      if len(case['shapes']) > 1:
-        for i in range(len(case['shapes'])):
-          yield {**case, 'shapes': case['shapes'][:i] + case['shapes'][i + 1:], 'xs': case['xs'][:i] + case['xs'][i + 1:]}
-      if case['struct'] != 'list':
-        yield {**case, 'struct': 'list'}
-      for i, sh in enumerate(case['shapes']):
-        for j in range(len(sh)):
-          sh2 = sh[:j] + sh[j + 1:]
-          yield {**case, 'shapes': case['shapes'][:i] + [sh2] + case['shapes'][i + 1:],
-                 'xs': case['xs'][:i] + [{**case['xs'][i], 'n': shape_size(sh2)}] + case['xs'][i + 1:]}
+      spec = case['spec'] if 'spec' in case else legacy_tree_spec(case)
+      base = {k: v for k, v in case.items() if k not in ('struct', 'shapes', 'xs')}
+      seen = set()
+      for sp in spec_shrinks(spec):
+        d = core.case_digest(sp)
+        if d not in seen:
+          seen.add(d)
+          yield {**base, 'spec': sp}
 
   def _reshape(self, case, shape):
     x = case['x']
@@ -589,102 +750,130 @@ class C18(core.Property):
 
   # ---- trees ----------------------------------------------------------------------------------
 
-  def _build_tree(self, struct, leaves):
-    if struct == 'list':
-      return list(leaves)
-    if struct == 'dict':
-      return {f'p{i}': l for i, l in enumerate(leaves)}
-    # nested: {'a': {'w': l0, 'b': l1}, 'z': [l2]} in flatten order
-    if len(leaves) == 1:
-      return {'a': {'w': leaves[0]}}
-    if len(leaves) == 2:
-      return {'a': {'b': leaves[0], 'w': leaves[1]}}
-    return {'a': {'b': leaves[0], 'w': leaves[1]}, 'z': [leaves[2]]}
-
   def _eval_tree(self, case, ctx):
+    """structured_rotation_pytree / inverse_structured_rotation_pytree on an arbitrary container tree.
+    Oracle (leaf-wise, on the real outputs): tree structure preserved, every leaf's norm preserved, the
+    inverse with the same key restores every leaf in its shape. Model: through the flattened leaves."""
     jax, jnp, wh = self.jax, self.jnp, self.wh
-    shapes = case['shapes']
-    xqs = []
-    leaves = []
-    for sh, spec in zip(shapes, case['xs']):
-      size = shape_size(sh)
-      xq = gen_vector({**spec, 'n': size}) if isinstance(spec, dict) else gen_vector(spec)
-      xq = (xq + [Fraction(0)] * size)[:size]
-      xqs.append(xq)
-      leaves.append(jnp.asarray(np.array([float(v) for v in xq], dtype=np.float32).reshape(sh)))
-    tree = self._build_tree(case['struct'], leaves)
+    tu = jax.tree_util
+    spec = case['spec'] if 'spec' in case else legacy_tree_spec(case)
+    leaf_specs = spec_all_leaves(spec)
+    ids = {id(l): i for i, l in enumerate(leaf_specs)}
+
+    def leaf_q(l):
+      size = shape_size(l[1])
+      x = l[2]
+      xq = gen_vector({**x, 'n': size}) if isinstance(x, dict) else gen_vector(x)
+      return (xq + [Fraction(0)] * size)[:size]
+
+    qs = [leaf_q(l) for l in leaf_specs]
+    tree = spec_build(spec, lambda l: jnp.asarray(
+        np.array([float(v) for v in qs[ids[id(l)]]], dtype=np.float32).reshape(l[1])))
+    # flatten order of the leaves as JAX sees them (dict keys sorted, namedtuple fields in order, None = no leaf)
+    order = tu.tree_leaves(spec_build(spec, lambda l: ids[id(l)]))
+    if sorted(order) != list(range(len(leaf_specs))):
+      raise core.InfraError('harness: leaf order of the generated tree could not be determined')
+    xqs = [qs[i] for i in order]
+    shapes = [list(leaf_specs[i][1]) for i in order]
+    tdef = tu.tree_structure(tree)
+    if tdef.num_leaves != len(xqs):
+      raise core.InfraError('harness: generated tree has an unexpected number of leaves')
     key = jax.random.PRNGKey(case['key'])
+    kinds = sorted(spec_kinds(spec))
     problems, corr, fkey = [], [], None
+    tags = tuple([f'tree:leaves={min(len(xqs), 6)}', f'tree:has0d={any(not sh for sh in shapes)}'] +
+                 [f'tree:has={k}' for k in kinds])
+    what = f'tree {tdef} (leaf shapes {shapes})'
     try:
       rot, shp = wh.structured_rotation_pytree(tree, key)
     except Exception as e:   # pylint: disable=broad-except
-      problems.append(f'structured_rotation_pytree(leaf shapes {shapes}) raised {type(e).__name__}: {str(e)[:100]!r}')
-      return Outcome(oracle_fail=problems[0], key='C18/tree/rotation-raises-' + type(e).__name__, tags=('tree:raise',))
-    rl, rdef = jax.tree_util.tree_flatten(rot)
-    _, tdef = jax.tree_util.tree_flatten(tree)
-    if rdef != tdef or len(rl) != len(leaves):
-      problems.append('rotated tree has a different structure')
+      return Outcome(oracle_fail=f'structured_rotation_pytree on {what} raised {type(e).__name__}: {str(e)[:100]!r}',
+                     key='C18/tree/rotation-raises-' + type(e).__name__, tags=tags + ('tree:raise',),
+                     nontrivial=False, detail={'tree': str(tdef)})
+    rl = None
+    try:
+      rdef = tu.tree_structure(rot)
+      if rdef != tdef:
+        problems.append(f'rotated tree has structure {rdef}, the parameters have {tdef}')
+        fkey = 'C18/tree/structure'
+      else:
+        rl = tu.tree_leaves(rot)
+    except Exception as e:   # pylint: disable=broad-except
+      problems.append(f'rotated tree cannot be flattened: {type(e).__name__}')
       fkey = 'C18/tree/structure'
+    if rl is not None:
+      for i, xq in enumerate(xqs):
+        try:
+          yi = np.asarray(rl[i]).astype(np.float64)
+        except Exception:   # pylint: disable=broad-except
+          problems.append(f'leaf {i}: rotated leaf is not an array')
+          fkey = fkey or 'C18/tree/structure'
+          continue
+        s0 = sum(float(v) ** 2 for v in xq)
+        if yi.ndim != 1:
+          corr.append(f'leaf {i}: rotated leaf has shape {yi.shape}; the model returns a flat vector')
+        if abs(float(np.sum(yi ** 2)) - s0) > 1e-4 * s0 + 1e-6:
+          problems.append(f'leaf {i} (shape {tuple(shapes[i])}): norm^2 {s0!r} became {float(np.sum(yi ** 2))!r} after rotation')
+          fkey = fkey or 'C18/tree/norm'
     inv = None
     try:
       inv = wh.inverse_structured_rotation_pytree(rot, key, shp)
     except Exception as e:   # pylint: disable=broad-except
-      problems.append(f'inverse_structured_rotation_pytree(leaf shapes {shapes}) raised {type(e).__name__}: {str(e)[:100]!r}')
-      fkey = fkey or ('C18/tree/inverse-raises-' + type(e).__name__ + ('-0d' if any(not s for s in shapes) else ''))
-    if not fkey or inv is not None:
-      for i, (xq, sh) in enumerate(zip(xqs, shapes)):
-        if i >= len(rl):
-          break
-        yi = np.asarray(rl[i]).astype(np.float64)
-        s0 = sum(float(v) ** 2 for v in xq)
-        if abs(float(np.sum(yi ** 2)) - s0) > 1e-4 * s0 + 1e-6:
-          problems.append(f'leaf {i}: norm not preserved')
-          fkey = fkey or 'C18/tree/norm'
-      if inv is not None:
-        il, idef = jax.tree_util.tree_flatten(inv)
-        if idef != tdef:
-          problems.append('restored tree has a different structure')
-          fkey = fkey or 'C18/tree/structure'
-        else:
-          for i, (xq, sh) in enumerate(zip(xqs, shapes)):
-            zi = np.asarray(il[i])
-            sc = sum(abs(float(v)) for v in xq)
-            if zi.shape != tuple(sh):
-              problems.append(f'leaf {i}: restored shape {zi.shape} != {tuple(sh)}')
-              fkey = fkey or 'C18/tree/restored-shape'
-            elif any(abs(float(a) - float(b)) > 1e-5 * sc + 1e-4 * abs(float(b)) + 1e-6 for a, b in zip(zi.reshape(-1), xq)):
-              problems.append(f'leaf {i}: inverse does not restore the leaf')
-              fkey = fkey or 'C18/tree/inverse-value'
-    # model: per-leaf keys are split(rng, n_leaves)[i], shared by rotation and inverse
-    keys = jax.random.split(key, len(leaves))
-    signss = []
-    for i, xq in enumerate(xqs):
-      d = 1 << (len(xq) - 1).bit_length()
-      s, ok = self._signs(keys[i], d)
-      if not ok:
-        corr.append('rademacher monitor failed')
-      signss.append(s)
-    ans = ctx.drv.ask1('c18.rottree', signss, xqs)
-    if ans[0] != 'ok':
-      corr.append(f'model rotTree rejects: {ans}')
+      problems.append(f'inverse_structured_rotation_pytree on the rotation of {what} raised {type(e).__name__}: {str(e)[:100]!r}')
+      fkey = fkey or ('C18/tree/inverse-raises-' + type(e).__name__ + ('-0d' if any(not sh for sh in shapes) else ''))
+    if inv is not None:
+      idef = tu.tree_structure(inv)
+      if idef != tdef:
+        problems.append(f'restored tree has structure {idef}, the parameters have {tdef}')
+        fkey = fkey or 'C18/tree/structure'
+      else:
+        il = tu.tree_leaves(inv)
+        for i, (xq, sh) in enumerate(zip(xqs, shapes)):
+          zi = np.asarray(il[i])
+          sc = sum(abs(float(v)) for v in xq)
+          if zi.shape != tuple(sh):
+            problems.append(f'leaf {i}: restored shape {zi.shape} != {tuple(sh)}')
+            fkey = fkey or 'C18/tree/restored-shape'
+          elif any(abs(float(a) - float(b)) > 1e-5 * sc + 1e-4 * abs(float(b)) + 1e-6 for a, b in zip(zi.reshape(-1), xq)):
+            problems.append(f'leaf {i} (shape {tuple(sh)}): inverse does not restore the leaf')
+            fkey = fkey or 'C18/tree/inverse-value'
+    # model: per-leaf keys are split(rng, n_leaves)[i] in flatten order, shared by rotation and inverse
+    if xqs:
+      keys = jax.random.split(key, len(xqs))
+      signss = []
+      for i, xq in enumerate(xqs):
+        d = 1 << (len(xq) - 1).bit_length()
+        sg, ok = self._signs(keys[i], d)
+        if not ok:
+          corr.append('rademacher monitor failed')
+        signss.append(sg)
+      ans = ctx.drv.ask1('c18.rottree', signss, xqs)
+      if ans[0] != 'ok':
+        corr.append(f'model rotTree rejects: {ans}')
+      else:
+        if rl is not None:
+          for i, my in enumerate(ans[1]):
+            d = len(my)
+            try:
+              yi = np.asarray(rl[i])
+            except Exception:   # pylint: disable=broad-except
+              continue
+            sc = sum(abs(float(v)) for v in xqs[i])
+            if yi.shape != (d,):
+              corr.append(f'leaf {i}: rotated length {yi.shape} vs model {d}')
+            elif any(not close(float(a) * math.sqrt(d), b, sc) for a, b in zip(yi, my)):
+              corr.append(f'leaf {i}: rotation differs from the model with key split(rng,{len(xqs)})[{i}]')
+        back = ctx.drv.ask1('c18.invrottree', signss, ans[1], shapes)
+        if back[0] != 'ok' or back[1] != [[len(my) * v for v in xq] for my, xq in zip(ans[1], xqs)]:
+          corr.append('model violates C18_pytree')
+      ctx.count('tree_model_comparisons')
     else:
-      for i, my in enumerate(ans[1]):
-        if i >= len(rl):
-          break
-        d = len(my)
-        yi = np.asarray(rl[i])
-        sc = sum(abs(float(v)) for v in xqs[i])
-        if yi.shape != (d,):
-          corr.append(f'leaf {i}: rotated length {yi.shape} vs model {d}')
-        elif any(not close(float(a) * math.sqrt(d), b, sc) for a, b in zip(yi, my)):
-          corr.append(f'leaf {i}: rotation differs from the model with key split(rng,{len(leaves)})[{i}]')
-      back = ctx.drv.ask1('c18.invrottree', signss, ans[1], shapes)
-      if back[0] != 'ok' or back[1] != [[len(my) * v for v in xq] for my, xq in zip(ans[1], xqs)]:
-        corr.append('model violates C18_pytree')
-    tags = (f'tree:leaves={len(shapes)}', f'tree:struct={case["struct"]}', f'tree:has0d={any(not s for s in shapes)}')
+      # a tree without leaves: nothing to rotate; both results must have the same (leafless) structure
+      ctx.count('leafless_trees')
     return Outcome(oracle_fail='; '.join(problems[:3]) or None, corr_fail='; '.join(corr[:3]) or None,
                    nontrivial=any(len(x) >= 2 for x in xqs), tags=tags, key=fkey,
-                   detail={'shapes': shapes, 'rot0': [float(v) for v in np.asarray(rl[0]).reshape(-1)[:8]] if rl else None})
+                   detail={'tree': str(tdef), 'shapes': shapes,
+                           'rot0': [float(v) for v in np.asarray(rl[0]).reshape(-1)[:8]] if rl else None})
 
 
 PROPERTY = C18
